@@ -68,8 +68,35 @@ func genStream(repo string, fs facts) (string, error) {
 		}
 		return true
 	})
+	// JoinConn: each direction is its own io.Copy over the closure's own parameters (a buffer or any
+	// other state shared between the two directions would let one stream's bytes into the other)
+	joinPrivate := false
+	if nu, err := loadPkg(repo, "netutil"); err == nil {
+		if jc := nu.fn("", "JoinConn"); jc != nil {
+			if lit := funcLitAssigned(nu, jc, "join"); lit != nil && lit.Type.Params != nil && len(lit.Type.Params.List) == 1 &&
+				len(lit.Type.Params.List[0].Names) == 2 {
+				a, b := lit.Type.Params.List[0].Names[0].Name, lit.Type.Params.List[0].Names[1].Name
+				body := nu.src(lit.Body)
+				copies := 0
+				ast.Inspect(lit.Body, func(n ast.Node) bool {
+					if ce, ok := n.(*ast.CallExpr); ok && strings.HasPrefix(nu.src(ce.Fun), "io.Copy") {
+						copies++
+						if nu.src(ce.Fun) != "io.Copy" || len(ce.Args) != 2 || nu.src(ce.Args[0]) != a || nu.src(ce.Args[1]) != b {
+							copies += 100
+						}
+					}
+					return true
+				})
+				src := nu.src(jc)
+				joinPrivate = copies == 1 && !strings.Contains(body, "CopyBuffer") &&
+					strings.Contains(src, "go join(c1, c2)") && strings.Contains(src, "go join(c2, c1)")
+			}
+		}
+	}
+	fs["stream.joinPrivateBuffers"] = joinPrivate
 	fs["stream.sideChunk"] = chunk
 	fs["stream.tunnelReadChecked"] = checked
 	return fmt.Sprintf("namespace PubModel.Gen.Stream\n/-- `const chunk` of sideConn.Write -/\ndef sideChunk : Nat := %d\n"+
-		"/-- tunnel.Read returns an error when the reply is longer than the caller's buffer -/\ndef tunnelReadChecked : Bool := %v\nend PubModel.Gen.Stream\n", chunk, checked), nil
+		"/-- tunnel.Read returns an error when the reply is longer than the caller's buffer -/\ndef tunnelReadChecked : Bool := %v\n"+
+		"/-- JoinConn runs one plain io.Copy per direction over that direction's own two connections -/\ndef joinPrivateBuffers : Bool := %v\nend PubModel.Gen.Stream\n", chunk, checked, joinPrivate), nil
 }
